@@ -63,7 +63,9 @@ KNOWN = {
     # go.rs make_anonymous_struct_name uses enum id.original: the helper struct is `{original}{V}Inner` (consistent with the Go
     # enum name, which is the original one too) - differs from the other four languages.
     'go_inner_struct_named_after_original_enum_name': 'Go names the helper struct {enum original}{V}Inner',
-    # scala.rs begin_package/begin_package_object print nothing for a package name without '.', end_package* always print `}`.
+    # scala.rs before the /repo fixes 17 and 30: begin_package/begin_package_object printed nothing for a package name without '.',
+    # end_package* always printed `}`.  Since fix 30 all four print for every name (`package object p {` .. `}` / `package p {` .. `}`):
+    # the category cannot occur on the current tree, it is kept so that a regression is named.
     'scala_package_closer_without_opener': 'Scala prints the closing `}` of `package x {` / `package object x {` even when the opener is not printed (package without dot)',
     # scala.rs generate_types never looks at consts.
     'scala_consts_dropped': 'Scala silently drops constants',
